@@ -467,6 +467,61 @@ func (t *traceSink) trackVM(line []byte) {
 	t.prevDepth = 0
 }
 
+// stackBelowCheck scans a kept TraceOut text: after every completed depth-0 instruction whose
+// opcode is in `arity` (it pops arity[op] items and pushes one), the items below the result must be
+// exactly the previous depth-0 stack minus the operands.  `args` is the initial stack (bottom first).
+func stackBelowCheck(text string, args [][]byte, arity map[string]int) string {
+	var stack0, cur []string
+	for i := len(args) - 1; i >= 0; i-- {
+		stack0 = append(stack0, fmt.Sprintf("%x", args[i]))
+	}
+	pending := ""
+	check := func() string {
+		if pending == "" {
+			return ""
+		}
+		next := cur
+		if strings.HasPrefix(pending, "NOPx") {
+			next = stack0
+		}
+		if k, ok := arity[pending]; ok && len(stack0) >= k && len(next) >= 1 {
+			if strings.Join(stack0[k:], ",") != strings.Join(next[1:], ",") {
+				return fmt.Sprintf("before %s: [%s]  after: [%s]", pending, strings.Join(stack0, ","), strings.Join(next, ","))
+			}
+		}
+		stack0 = next
+		return ""
+	}
+	lines := strings.Split(text, "\n")
+	for idx, ln := range lines {
+		if strings.HasPrefix(ln, "vm ") {
+			f := strings.Fields(ln)
+			if f[1] != "0" {
+				cur = nil
+				continue
+			}
+			if bad := check(); bad != "" {
+				return bad
+			}
+			pending = f[6]
+			cur = nil
+		} else if strings.HasPrefix(ln, "  stack ") {
+			if strings.HasPrefix(ln, "  stack 0:") {
+				cur = nil
+			}
+			i := strings.IndexByte(ln, ':')
+			cur = append(cur, strings.TrimSpace(ln[i+1:]))
+		}
+		// the last instruction: it completed iff a dump follows it (all listed opcodes push)
+		if idx == len(lines)-1 && len(cur) > 0 {
+			if bad := check(); bad != "" {
+				return bad
+			}
+		}
+	}
+	return ""
+}
+
 type vmResult struct {
 	line     string
 	class    string
